@@ -16,7 +16,7 @@ CHECKS = {
   note="OpenCV box filters are modelled as zero-border window sums (validated by the correspondence run on integer data where "
        "float32 sums are exact); rasterio.fill.fillnodata is a parameter of the model (its output is fed to the model); "
        "numpy std/percentile enter through the block normalisation pair (n0, n1) taken from the code."
-       ' Input strata added from the seeded-change rounds: kernels up to 19 x 21 on fully valid blocks, sources negative throughout, block normalisation compared with its definition.',
+       ' Input strata added from the seeded-change rounds: kernels up to 19 x 21 on fully valid blocks, sources negative throughout, block normalisation compared with its definition. Since round 8: a second fit against a reference block object that already went through another fit (the blocks are zeroed in place under their cached masks); the acceptance test and the warning of validate_kernel_shape are extracted from the source text and proved equal to the model\'s (Props/SrcTieCli.lean).',
   tech="Lean 4 proof (field_simp/ring/linarith over Q, list induction) + bit-exact differential correspondence run", ref='7 C01'),
  'C02': dict(
   text="Proof (Lean 4) over exact rationals: if ref = a x + b on the jointly valid pixels of a window, gain-offset OLS returns "
@@ -52,7 +52,7 @@ CHECKS = {
   note="Known finding D17 (open): gain-offset without in-painting loses an isolated valid pixel (degenerate window; witness theorem "
        "gain_offset_single_point_no_fit). GDAL validity rules R1 (average) / R2 (centre rule for up-sampling) are modelled and measured; no-gap tiling is C06's; "
        "re-masking after rounding is C13's. The converse is proved per pixel from explicit premises, not as one end-to-end theorem."
-       ' Input strata added from the seeded-change rounds: tie geometries, alpha sources with semi-transparent valid pixels, exactly constant source patches with in-painting on.',
+       ' Input strata added from the seeded-change rounds: tie geometries, alpha sources with semi-transparent valid pixels, exactly constant source patches with in-painting on. Since round 8: a 1/64 m source against a reference with pixels 2048 source pixels long, the source\'s far edge one source pixel beyond a reference pixel edge (no window edge may be snapped away); expand_window_to_grid\'s source-text tie also serves this property.',
   tech="Lean 4 proof (order/field facts over Q, list induction) + differential mask comparison on real fusions", ref='7 C03'),
  'C04': dict(
   text="Proof (Lean 4) on the block fan-out machine (4 locks, per-block straight-line program, any number of threads, any "
@@ -69,7 +69,7 @@ CHECKS = {
   note="Races inside GDAL below the proxies, the GIL and memory visibility are outside the model. The controller serialises "
        "worker threads, so only interleavings at yield points (lock acquire/release, first dataset access, fit, apply, job end) are "
        "explored - which is all that matters when every shared access is under a lock, and that premise is checked per access."
-       ' Added from the seeded-change rounds: lock-set discipline (some one controlled lock held at every access to a file; locks the code creates during a run come from a factory), schedules on objects that already did a single-threaded call, a free-running stress leg (switch interval 1 us) for races between byte-codes. The lock-set check sees Python-level locks only.',
+       ' Added from the seeded-change rounds: lock-set discipline (some one controlled lock held at every access to a file; locks the code creates during a run come from a factory), schedules on objects that already did a single-threaded call, a free-running stress leg (switch interval 1 us) for races between byte-codes. The lock-set check sees Python-level locks only. Since round 8: a pass-through probe counts the threads inside read / dataset_mask of the parameter dataset shared by the workers of ParamStats.stats (more than one at a time is a failing input); validate_threads is extracted and proved (never more than the processors).',
   tech="Lean 4 proof about a scheduler state machine + trace validation of real threads under a controlled scheduler", ref='7 C04'),
  'C05': dict(
   text="Proof (Lean 4): overlap_for_kernel = ceil(k/2) = radius + 1; the kernel window of every pixel within one pixel of a "
@@ -94,7 +94,7 @@ CHECKS = {
        "multi-block real fusions against the whole-image model (Model/FuseImage.lean), which has no blocks at all, and at every pixel - "
        "seams included - against the block model (what the block that writes a pixel computes from what it read; fuseimgblk op).",
   note="gain-blk-offset and in-painting have a per-block term and are excluded (partial), as the property states."
-       ' Known finding D24 (open): down-sampling methods other than `average` are partition dependent (recorded signatures: cubic; bilinear on the reference grid).',
+       ' Known finding D24 (open): down-sampling methods other than `average` are partition dependent (recorded signatures: cubic; bilinear on the reference grid). Since round 8: mask_partial=True with bilinear / cubic-spline up-sampling in 2, 4 and 8 blocks against one (aligned integer ratios, gain model: findings D8 / D16 cannot interfere).',
   tech="Lean 4 proof (omega on windows, list congruence) + partition-pair differential runs", ref='7 C05'),
  'C06': dict(
   text="Proof (Lean 4): for all origins, pixel sizes, image sizes, block lengths s>0 and overlaps v>=0 the processing-grid "
@@ -110,7 +110,7 @@ CHECKS = {
        "windows contain output windows) on the code's windows, also for source and reference in different CRSs.",
   note="Float behaviour of rasterio's affine maps is outside the proof: the proof needs both neighbours to derive a shared "
        "boundary by the same function of the same integer corner; that obligation is checked on the real code per case. "
-       "Block shape (_auto_block_shape) is read from the code and passed to the model (theorems hold for every s).",
+       "Block shape (_auto_block_shape) is read from the code and passed to the model (theorems hold for every s). Since round 8: sliver geometries - the dyadic geometries on a unit 1024 times finer with the source moved by 1-3 such units, so that window edges lie 1/20000 ... 1/700 pixel beside pixel edges of the other grid.",
   tech="Lean 4 proof (induction/omega over integer grids) + differential correspondence run", ref='7 C06'),
 
  'C07': dict(
@@ -123,7 +123,7 @@ CHECKS = {
        "tolerance for general factors; and by the real KernelModel.fit on scaled blocks against the model of the unscaled block.",
   note="Hypotheses of the law that are measured, not proved: rasterio.fill.fillnodata commutes with multiplication by c; numpy "
        "std / percentile scale (variance_scale is proved; the percentile is not); GDAL warp is a normalised weighted mean. Integer "
-       "output dtypes are excluded (rounding is not homogeneous).",
+       "output dtypes are excluded (rounding is not homogeneous). Since round 8: every fourth case stores the rescaled copies as float64 next to float32 originals (the law is about values, not about the data type of the file).",
   tech="Lean 4 proof (field algebra over Q, case analysis on Option/ite) + bit-identity differential runs", ref='7 C07'),
  'C08': dict(
   text="Proof (Lean 4): under a dataset mask a hidden value reads as invalid whatever is stored; NaN nodata, numeric nodata, "
@@ -135,7 +135,7 @@ CHECKS = {
        "outputs), parameter image and comparison statistics; and by from_rio_dataset vs readPx.",
   note="How GDAL exposes masks (alpha honoured only for 1/3-band Byte/UInt16 + alpha) is GDAL's rule; WarpedVRT mask handling "
        "is not modelled."
-       ' Encodings exercised: NaN / numeric / non-float32 numeric nodata, internal mask (hidden 0, 3.4e38, -1e30, NaN, random), mask + nodata tag, side-car .msk, alpha (opaque and partly semi-transparent); south-up storage x encoding (known finding D19, open: an internal mask is lost through WarpedVRT).',
+       ' Encodings exercised: NaN / numeric / non-float32 numeric nodata, internal mask (hidden 0, 3.4e38, -1e30, NaN, random), mask + nodata tag, side-car .msk, alpha (opaque and partly semi-transparent); south-up storage x encoding (known finding D19, open: an internal mask is lost through WarpedVRT). Since round 8: sources invalid over an area larger than a block\'s read window (all mask encodings, hidden values under the mask).',
   tech="Lean 4 proof (case analysis, list congruence) + bit-identity differential runs across encodings", ref='7 C08'),
  'C09': dict(
   text="Proof (Lean 4) on the same machine with fault plans: a failed job makes the caller's outcome `raised` (fail_loud); "
@@ -147,7 +147,7 @@ CHECKS = {
        "terminates within a watchdog, all four datasets closed, all locks free, reader reusable with the reference result; "
        "multi-thread traces replayed by the Lean machine with the same fault plan (outcome raised, locks free, all other blocks "
        "complete); CLI exit codes; compare and stats analogues.",
-  note="Faults inside GDAL that do not surface as Python exceptions are outside. The watchdog bound (60 s) stands for liveness.",
+  note="Faults inside GDAL that do not surface as Python exceptions are outside. The watchdog bound (60 s) stands for liveness. Since round 8: every fourth fault plan writes its outputs through the Erdas Imagine or ENVI driver.",
   tech="Lean 4 proof about the machine under fault plans + exhaustive single-fault enumeration on the real code",
   ref='7 C09', category='proof'),
  'C10': dict(
@@ -160,7 +160,7 @@ CHECKS = {
        "object / fresh objects / CLI / mixed; str and Path; overwrite on/off; with/without parameter image; pre-existing garbage "
        "or older outputs): outcomes and listings vs the machine, bytes+mtime of untouched files, decoded outputs vs fresh runs.",
   note="GDAL side-car files (.aux.xml, .msk, .ovr) are whitelisted. Content identity is the decoded raster (pixels, masks, "
-       "tags, descriptions), not the compressed bytes.",
+       "tags, descriptions), not the compressed bytes. Since round 8: an overwrite over outputs that own GDAL side-car files (strict GeoTIFF profile: tags in .aux.xml) must equal the same call into an empty directory - files, decoded content, tags, parameter statistics.",
   tech="Lean 4 proof (invariants over call histories of a state machine) + differential history runs", ref='7 C10'),
  'C11': dict(
   text="Proof (Lean 4) over exact rationals: block sums are additive over any split of the pixels, accumulating the blocks of any "
@@ -188,7 +188,7 @@ CHECKS = {
        "figures equal across tilings, CLI JSON = API.",
   note="Bands holding +-inf (R2 with zero TSS) are outside the rational model and skipped in the value comparison. std is "
        "compared squared."
-       ' Since round 4 the +-inf bands are compared with their IEEE definitions (finding D20, fixed in /repo); thresholds outside [0, 1]; tiles without valid pixels inside the data window.',
+       ' Since round 4 the +-inf bands are compared with their IEEE definitions (finding D20, fixed in /repo); thresholds outside [0, 1]; tiles without valid pixels inside the data window. Since round 8: thresholds whose repr has no decimal point (1e-05: finding D26, fixed in /repo); the valid-data window pre-pass is modelled (Model/StatsWindow.lean), proved never to hide a valid pixel of any band for any tiling and completion order (no_valid_pixel_skipped; counterexample for a first-band window), compared with the real _get_data_window and with the tiles stats() actually reads (datawin op), and tied to the source text; the FUSE_* tag contract between fuse, validate_param_image and ParamStats is extracted and proved (src_C12_tags).',
   tech="Lean 4 proof (commutative-monoid fold invariance, algebra over Q) + differential runs", ref='7 C12'),
  'C13': dict(
   text="Proof (Lean 4): round-half-even is within half a unit and ties go to even (rhe_nearest, rhe_tie_even); a valid float32 "
@@ -209,7 +209,7 @@ CHECKS = {
        "layout; tags; ParamStats accepts; parameter mask = jointly valid on the processing grid (model validity rules); "
        "source-grid identity bit for bit.",
   note="The value content of the parameter bands is C01/C05's; degenerate windows are excluded from the mask comparison "
-       "(gain-offset skipped there).",
+       "(gain-offset skipped there). Since round 8: one reference band paired with several source bands (`repeat` selections); validate_param_image's count test, required tags and suffix list are extracted and proved to match what fuse writes (src_C12_label_matches_suffix).",
   tech="Lean 4 proof (Nat division/modulo arithmetic, list computation) + bit-identity differential runs", ref='7 C14'),
  'C15': dict(
   text="Proof (Lean 4) about the executable model of _match_pair_bands (greedy loop with masked-array semantics, threshold, "
@@ -227,7 +227,7 @@ CHECKS = {
        "(numpy any()). Wavelengths are dyadic rationals in the correspondence run; tolerance = exact rational of the double 0.1. "
        "Modelled domain: wavelengths are positive or absent; a *source* wavelength of exactly 0.0 (division by zero: the code gets inf "
        "for a non-zero reference wavelength and then refuses the match, the model treats the distance as undefined) is outside the "
-       "model and the theorems assume positive source wavelengths; the correspondence run generates none.",
+       "model and the theorems assume positive source wavelengths; the correspondence run generates none. Since round 8: RGB(A) files described by colour interpretation only with the alpha band first or in the middle, against references tagged near the standard wavelengths; the soundness predicate counts the documented colour-interpretation defaults as wavelengths; the candidate filter, refusal order, selection chain and RGB table of _get_band_info are extracted and tied.",
   tech="Lean 4 proof (loop invariant for the greedy matcher, list/nodup/sublist reasoning) + differential run", ref='7 C15'),
  'C16': dict(
   text="Proof (Lean 4): the repaired covers_bounds predicate accepts iff the source footprint is contained in the reference "
@@ -272,7 +272,7 @@ CHECKS = {
        "combine_profiles vs the model on generated profiles.",
   note="Partial: WarpedVRT (north-up re-projection, CRS changes), rotated and cross-CRS inputs are exercised, not modelled; "
        "south-up storage is only generated on dyadic geometry (a flipped decimal grid is an ulp off the north-up one)."
-       ' Known finding D21 (open): with different CRSs and the source grid as processing grid the corrected image is written on the re-projected source grid.',
+       ' Known finding D21 (open): with different CRSs and the source grid as processing grid the corrected image is written on the re-projected source grid. Since round 8: bands paired by hand against the wavelengths with force=True - the corrected bands carry the tags of the bands they were paired with.',
   tech="Lean 4 proof of the decision logic (+ corollary of the matcher theorem) + differential runs", ref='7 C18'),
  'C19': dict(
   text="Proof (Lean 4) of the front-end logic: per-key precedence command line > file > default (merge_precedence), file keys "
@@ -287,7 +287,7 @@ CHECKS = {
        "by `homonim fuse --compare [FILE]` (options from flags or the configuration file) recorded and compared with the API call "
        "with the same settings (grid, bands, statistics, --output JSON); stats JSON vs API in C12.",
   note="Partial: click's own parsing and type conversion are trusted; values that come from the YAML file bypass click's "
-       "callbacks (e.g. a kernel shape arrives as a list), which the harness mirrors.",
+       "callbacks (e.g. a kernel shape arrives as a list), which the harness mirrors. Since round 8: the default= expression of every click option that feeds an API dictionary is extracted (it must be an expression over the API's own create_* defaults), as are validate_threads (with both callers), the output-name f-strings and validate_kernel_shape; proved equal to the model's.",
   tech="Lean 4 proof + translator-generated tables (decide) + CLI-vs-API differential runs", ref='7 C19'),
  'C20': dict(
   text="Proof (Lean 4): for every integer window with non-negative size the boundless read succeeds (read_total) and returns "
